@@ -12,14 +12,20 @@ from .. import xtal
 from ..common import rng
 
 TECHNIQUE = ("runtime closed-form oracle: Seth-Hill tensors from a known (S,R) via eigen-decomposition compared with "
-             "grain.eps_grain/eps_sample(+_matrix), finite_strain.DeformationGradientTensor, tensor_map vectorised strains "
-             "and TensorMap.eps_sample/eps_crystal in both access orders; objectivity/symmetry/zero-strain/first-order laws")
-LEVEL_TEXT = ("Exploration: triclinic..cubic reference cells (given as cell parameters or as another grain), random rotations, "
-              "stretches up to 10%, m in {-1,-0.5,0,0.5,1,1.5,2}; every tensor is compared with the closed form to 1e-10, rotated-grain "
-              "runs check objectivity, identical cells must give exactly zero, map strains are compared per voxel with the per-grain "
-              "ones and the rotate-from-cache path with its documented law U.E.U^T.")
-LEVEL_NOTE = ("Trusts numpy eigh/svd in float64; the cached-rotation path of TensorMap is held to eps_sample = U.eps_crystal.U^T "
-              "with the map's own U (differs from the polar R at second order in strain).")
+             "grain.eps_grain/eps_sample(+_matrix), finite_strain.DeformationGradientTensor (array and grain-object inputs, "
+             "VRS and U), e6<->matrix round trips, tensor_map vectorised strains (per-voxel reference cells), the standalone "
+             "tensor rotation kernels, and TensorMap.eps_sample/eps_crystal in both access orders on multi-phase maps; "
+             "objectivity/symmetry/zero-strain/first-order laws")
+LEVEL_TEXT = ("Exploration: triclinic..cubic reference cells (given as cell parameters or as another grain, drawn independently of the "
+              "stretch magnitude), random rotations, stretches up to 10% (grains and maps), m in {-1,-0.5,0,0.5,1,1.5,2}; every tensor "
+              "is compared with the closed form to 1e-10, rotated-grain runs check objectivity, identical cells must give exactly zero, "
+              "map strains (every voxel with its own reference cell; TensorMaps with two phases and unphased voxels) are compared per "
+              "voxel with the closed form and with the per-grain values, and the rotate-from-cache path with its documented law "
+              "U.E.U^T and with a derived second-order bound against the per-grain value.")
+LEVEL_NOTE = ("Trusts numpy eigh/svd/qr in float64; the cached-rotation path of TensorMap is held to eps_sample = U.eps_crystal.U^T "
+              "with the map's own U (differs from the polar R at second order in strain) and to the per-grain value within "
+              "2.|R^T.U_qr - I|.|E| + 1e-10, U_qr being the harness's own QR orientation of the voxel; voxels without a reference "
+              "phase are generated and counted but their (undefined) strain is not judged.")
 
 RULE = ("a case = (reference kind: cell|grain, cell kind, stretch magnitude, rotation kind) evaluated for all seven m; "
         "non-trivial = non-zero stretch with a non-identity rotation; distinct = (ref kind, cell kind, magnitude, rounded cell)")
@@ -48,16 +54,27 @@ def gen_stretch(r, mag):
     return (Q * lam) @ Q.T
 
 
+def qr_orientation(UB):
+    """Harness-side Busing-Levy U of a UB matrix: UB = U.B with B upper triangular and a positive diagonal is exactly
+    the QR factorisation with the sign convention fixed (independent of ImageD11's cell-parameter route)."""
+    Q, Rr = np.linalg.qr(UB)
+    sg = np.sign(np.diag(Rr))
+    sg[sg == 0] = 1.0
+    return Q * sg
+
+
 def one_case(run, seed, idx, mods):
     grain, finite_strain, unitcell = mods
     r = rng(seed, "C10", "g", idx)
+    # 7 x 6 x 5 = 210 is the full (cell kind, magnitude, rotation kind) product (coprime moduli); the reference kind
+    # is drawn from the case's rng so that it is not tied to the magnitude
     kind = xtal.KINDS[idx % 7]
     cell0 = xtal.random_cell(r, kind)
-    refkind = "grain" if idx % 3 == 0 else "cell"
     mag = float([0.0, 1e-6, 1e-4, 1e-3, 1e-2, 0.1][idx % 6])
     rk = ["haar", "identity", "haar", "pi", "near-identity"][idx % 5]
     R = xtal.random_rotation(r, rk)
     S = gen_stretch(r, mag)
+    refkind = "grain" if r.random() < 0.4 else "cell"
     B0 = unitcell.unitcell(cell0).B          # reference exactly as the library builds it
     if refkind == "grain":
         U0 = xtal.random_rotation(r)
@@ -72,13 +89,26 @@ def one_case(run, seed, idx, mods):
     desc = dict(index=idx, kind=kind, ref=refkind, mag=mag, rot=rk, cell=cell0)
     run.case((refkind, kind, mag, tuple(round(c, 2) for c in cell0)), nontrivial=(mag > 0 and rk != "identity"),
              sample=desc)
+    if refkind == "grain":
+        run.count("ref_is_grain_cases")
+        if mag >= 1e-2:
+            run.count("ref_is_grain_large_stretch_cases")
 
     def V(key, what, **kw):
         run.violation(key, what, dict(desc, **kw))
 
-    eps = float(np.abs(S - np.eye(3)).max())
-    tol = 1e-10 * max(1.0, 1.0)
+    tol = 1e-10
     Es = {}
+    ub0 = ref.UB if refkind == "grain" else B0
+    D = finite_strain.DeformationGradientTensor(ubi, ub0)
+    # the documented object inputs: a grain for ubi, a grain for the reference
+    Dobj = finite_strain.DeformationGradientTensor(g, ref if refkind == "grain" else B0)
+    run.count("dgt_object_inputs")
+    if not np.array_equal(Dobj.F, D.F):
+        V("DGT:object-input", "DeformationGradientTensor(grain[, grain]) gives a different F than the array inputs "
+          "(max diff %.3g)" % np.abs(Dobj.F - D.F).max())
+    if np.abs(D.F - R @ S).max() > 1e-11:
+        V("F", "deformation gradient != R.S (err %.3g)" % np.abs(D.F - R @ S).max())
     for m in MS:
         want_g = seth_hill(S, m)
         want_s = R @ want_g @ R.T
@@ -94,21 +124,29 @@ def one_case(run, seed, idx, mods):
               % (m, np.abs(Esm - want_s).max()), m=m)
         if np.abs(Eg - Eg.T).max() > 1e-13 or np.abs(Esm - Esm.T).max() > 1e-13:
             V("symmetry:m=%g" % m, "strain tensor not symmetric", m=m)
-        if not np.allclose(g.eps_grain(ref, m), sym6(Eg), rtol=0, atol=0) or \
-                not np.allclose(g.eps_sample(ref, m), sym6(Esm), rtol=0, atol=0):
+        e6g, e6s = g.eps_grain(ref, m), g.eps_sample(ref, m)
+        if not np.allclose(e6g, sym6(Eg), rtol=0, atol=0) or \
+                not np.allclose(e6s, sym6(Esm), rtol=0, atol=0):
             V("e6:m=%g" % m, "6-vector form differs from the matrix form", m=m)
+        # e6 ordering, other direction: the matrix rebuilt from the 6-vector is the upper triangle mirrored (exact)
+        for modname, mod in (("grain", grain), ("finite_strain", finite_strain)):
+            run.count("e6_round_trips")
+            back = mod.e6_to_symm(e6g)
+            if not (np.array_equal(np.triu(back), np.triu(Eg)) and np.array_equal(back, back.T)
+                    and np.array_equal(mod.symm_to_e6(back), e6g)):
+                V("e6:round-trip:%s" % modname, "%s.e6_to_symm(eps_grain) is not the mirrored upper triangle of "
+                  "eps_grain_matrix" % modname, m=m)
         if mag == 0 and (np.abs(Eg).max() > 1e-12 or np.abs(Esm).max() > 1e-12):
             V("zero-strain:m=%g" % m, "identical cells give non-zero strain %.3g" % max(np.abs(Eg).max(), np.abs(Esm).max()), m=m)
         # DeformationGradientTensor directly
-        ub0 = ref.UB if refkind == "grain" else B0
-        D = finite_strain.DeformationGradientTensor(ubi, ub0)
-        if np.abs(D.F - R @ S).max() > 1e-11:
-            V("F", "deformation gradient != R.S (err %.3g)" % np.abs(D.F - R @ S).max())
         if np.abs(D.finite_strain_ref(m) - want_g).max() > tol or np.abs(D.finite_strain_lab(m) - want_s).max() > tol:
             V("DGT:m=%g" % m, "DeformationGradientTensor.finite_strain_ref/lab wrong", m=m)
     Vp, Rp, Sp = D.VRS
     if mag > 0 and (np.abs(Rp - R).max() > 1e-10 or np.abs(Sp - S).max() > 1e-10 or np.abs(Vp - R @ S @ R.T).max() > 1e-10):
         V("polar", "polar decomposition does not return the known R, S, V")
+    # D.U is documented as the rotation relating ubi to ub0: the polar factor R (unique also for S = I)
+    if np.abs(Dobj.U - R).max() > 1e-10:
+        V("DGT:U", "DeformationGradientTensor.U differs from the known rotation by %.3g" % np.abs(Dobj.U - R).max())
     # objectivity: rotate the grain
     Q = xtal.random_rotation(r)
     g2 = grain.grain(ubi @ Q.T)
@@ -129,51 +167,106 @@ def one_case(run, seed, idx, mods):
                 break
 
 
+MAP_SHAPES = [(1, 1, 1), (1, 3, 4), (2, 5, 3), (1, 7, 1)]
+MAP_MAGS = [0.0, 1e-4, 2e-3, 1e-2, 0.05, 0.1]
+
+
 def one_map(run, seed, idx, mods, tmap):
     grain, finite_strain, unitcell = mods
     r = rng(seed, "C10", "m", idx)
-    shp = [(1, 1, 1), (1, 3, 4), (2, 5, 3), (1, 7, 1)][idx % 4]
+    # the shape is drawn from the case's rng (shape and magnitude used to be tied through idx % 4)
+    shp = MAP_SHAPES[int(r.integers(len(MAP_SHAPES)))]
+    mag = float(MAP_MAGS[idx % 6])              # 6 and 7 (cell kind) are coprime; the shape is drawn independently
     n = int(np.prod(shp))
     kind = xtal.KINDS[idx % 7]
-    cell0 = xtal.random_cell(r, kind)
-    uc = unitcell.unitcell(cell0)
-    B0 = uc.B
-    mag = float([1e-4, 2e-3, 1e-2, 0.0][idx % 4])
-    ubis = np.empty((n, 3, 3))
-    for i in range(n):
-        ubis[i] = np.linalg.inv(B0) @ gen_stretch(r, mag) @ xtal.random_rotation(r).T
-    mask = r.random(n) < 0.2
-    if n == 1:
-        mask[:] = False
-    ubimap = ubis.reshape(shp + (3, 3)).copy()
-    ubimap.reshape(n, 3, 3)[mask] = np.nan
-    desc = dict(index=idx, shape=shp, kind=kind, mag=mag, cell=cell0, n_nan=int(mask.sum()))
+    # two phases with their own reference cells, plus voxels that belong to no phase (-1)
+    cells = [xtal.random_cell(r, kind), xtal.random_cell(r, xtal.KINDS[int(r.integers(7))])]
+    ucs = [unitcell.unitcell(c) for c in cells]
+    phase = r.integers(0, 2, n)
+    nophase = (r.random(n) < 0.15) if n > 1 else np.zeros(n, bool)
+    mask = (r.random(n) < 0.2) if n > 1 else np.zeros(n, bool)          # voxels without a UBI
+    desc = dict(index=idx, shape=shp, kind=kind, mag=mag, cells=cells, n_nan=int(mask.sum()), n_nophase=int(nophase.sum()))
     run.case(("map", shp, kind, mag), nontrivial=mag > 0, sample=desc)
+    run.count("map_mag_%g" % mag)
 
     def V(key, what, **kw):
         run.violation(key, what, dict(desc, **kw))
 
-    cellmap = np.broadcast_to(np.array(cell0), shp + (6,)).copy()
-    es = tmap.ubi_and_unitcell_to_eps_sample(ubimap, cellmap)
-    ec = tmap.ubi_and_unitcell_to_eps_crystal(ubimap, cellmap)
-    wants, wantc = np.full((n, 3, 3), np.nan), np.full((n, 3, 3), np.nan)
+    # ---- (1) vectorised kernels with a different reference cell in every voxel
+    vcells = np.array([xtal.random_cell(r, xtal.KINDS[int(r.integers(7))]) for _ in range(n)])
+    ubisA = np.empty((n, 3, 3))
+    closed_s, closed_c = np.empty((n, 3, 3)), np.empty((n, 3, 3))
     for i in range(n):
-        if not mask[i]:
-            g = grain.grain(ubis[i])
-            wants[i] = g.eps_sample_matrix(cell0, 0.5)
-            wantc[i] = g.eps_grain_matrix(cell0, 0.5)
-    run.count("map_voxels_checked", n)
+        S, Rr = gen_stretch(r, mag), xtal.random_rotation(r)
+        ubisA[i] = np.linalg.inv(unitcell.unitcell(vcells[i]).B) @ S @ Rr.T
+        closed_c[i] = S - np.eye(3)                 # Biot strain (m = 0.5) of the known stretch
+        closed_s[i] = Rr @ closed_c[i] @ Rr.T
+    ubimapA = ubisA.reshape(shp + (3, 3)).copy()
+    ubimapA.reshape(n, 3, 3)[mask] = np.nan
+    cellmapA = vcells.reshape(shp + (6,)).copy()
+    es = tmap.ubi_and_unitcell_to_eps_sample(ubimapA, cellmapA).reshape(n, 3, 3)
+    ec = tmap.ubi_and_unitcell_to_eps_crystal(ubimapA, cellmapA).reshape(n, 3, 3)
     ok = ~mask
-    if np.abs(es.reshape(n, 3, 3)[ok] - wants[ok]).max(initial=0) > 1e-10 or \
-            not np.isnan(es.reshape(n, 3, 3)[mask]).all():
-        V("map:eps_sample", "ubi_and_unitcell_to_eps_sample differs from grain.eps_sample_matrix(m=0.5)")
-    if np.abs(ec.reshape(n, 3, 3)[ok] - wantc[ok]).max(initial=0) > 1e-10 or \
-            not np.isnan(ec.reshape(n, 3, 3)[mask]).all():
-        V("map:eps_crystal", "ubi_and_unitcell_to_eps_crystal differs from grain.eps_grain_matrix(m=0.5)")
-    # TensorMap, both access orders
-    phase_ids = np.zeros(shp, int)
+    run.count("map_voxels_checked", n)
+    run.count("map_voxels_own_reference_cell", int(ok.sum()))
+    wants, wantc = np.full((n, 3, 3), np.nan), np.full((n, 3, 3), np.nan)
+    for i in np.nonzero(ok)[0]:
+        g = grain.grain(ubisA[i])
+        wants[i] = g.eps_sample_matrix(vcells[i], 0.5)
+        wantc[i] = g.eps_grain_matrix(vcells[i], 0.5)
+    for nm, got, want, closed in (("eps_sample", es, wants, closed_s), ("eps_crystal", ec, wantc, closed_c)):
+        if np.abs(got[ok] - want[ok]).max(initial=0) > 1e-10 or not np.isnan(got[mask]).all():
+            V("map:%s" % nm, "ubi_and_unitcell_to_%s differs from the per-grain matrix (m=0.5) by %.3g"
+              % (nm, np.abs(got[ok] - want[ok]).max(initial=0)))
+        if np.abs(got[ok] - closed[ok]).max(initial=0) > 1e-10:
+            V("map:%s:closed-form" % nm, "ubi_and_unitcell_to_%s differs from the Biot strain of the known stretch by %.3g"
+              % (nm, np.abs(got[ok] - closed[ok]).max(initial=0)))
+
+    # ---- (2) the standalone rotation kernels: U.T.U^T and back, on arbitrary symmetric tensors
+    T = r.normal(size=(n, 3, 3))
+    T = T + np.transpose(T, (0, 2, 1))
+    Us = np.array([xtal.random_rotation(r) for _ in range(n)])
+    want_rot = np.einsum("nij,njk,nlk->nil", Us, T, Us)
+    got_rot = tmap.tensor_crystal_to_sample(T.reshape(shp + (3, 3)), Us.reshape(shp + (3, 3))).reshape(n, 3, 3)
+    back = tmap.tensor_sample_to_crystal(got_rot.reshape(shp + (3, 3)), Us.reshape(shp + (3, 3))).reshape(n, 3, 3)
+    run.count("rotation_kernel_voxels", n)
+    # 9 products of O(|T|) numbers per entry: 1e-13 relative is ~50 eps
+    if np.abs(got_rot - want_rot).max() > 1e-13 * (1 + np.abs(T).max()):
+        V("tensor_crystal_to_sample", "tensor_crystal_to_sample != U.T.U^T (err %.3g)" % np.abs(got_rot - want_rot).max())
+    if np.abs(back - T).max() > 1e-13 * (1 + np.abs(T).max()):
+        V("tensor_sample_to_crystal", "tensor_sample_to_crystal(tensor_crystal_to_sample(T)) != T (err %.3g)"
+          % np.abs(back - T).max())
+
+    # ---- (3) TensorMap with two phases and unphased voxels, both access orders
+    ubisB = np.empty((n, 3, 3))
+    Ecl_c, Ecl_s = np.empty((n, 3, 3)), np.empty((n, 3, 3))
+    bound = np.empty(n)
+    for i in range(n):
+        S, Rr = gen_stretch(r, mag), xtal.random_rotation(r)
+        ubisB[i] = np.linalg.inv(ucs[phase[i]].B) @ S @ Rr.T
+        Ecl_c[i] = S - np.eye(3)
+        Ecl_s[i] = Rr @ Ecl_c[i] @ Rr.T
+        # Derived tolerance for "rotated from the cache" against the per-grain value.  The cache path returns
+        # U.E.U^T (or U^T.e.U) with the Busing-Levy U of the voxel, the per-grain value is R.E.R^T with the polar
+        # rotation R of F (the one generated here).  With Q = R^T.U:  |Q.E.Q^T - E|_2 <= 2.|Q - I|_2.|E|_2, and the
+        # max-abs entry is bounded by the 2-norm.  Q is evaluated with the harness's own QR orientation, so no
+        # quantity of the code under test enters the bound; |Q - I| is O(strain), i.e. the bound is O(strain^2).
+        Uqr = qr_orientation(np.linalg.inv(ubisB[i]))
+        bound[i] = 2.0 * np.linalg.norm(Rr.T @ Uqr - np.eye(3), 2) * np.linalg.norm(Ecl_c[i], 2) * 1.01 + 1e-10
+    ubimapB = ubisB.reshape(shp + (3, 3)).copy()
+    ubimapB.reshape(n, 3, 3)[mask] = np.nan
+    phase_ids = np.where(nophase, -1, phase).reshape(shp)
+    okB = ok & ~nophase
+    run.count("tensormap_voxels_phase0", int((okB & (phase == 0)).sum()))
+    run.count("tensormap_voxels_phase1", int((okB & (phase == 1)).sum()))
+    run.count("tensormap_voxels_nophase", int(nophase.sum()))
+    wantsB, wantcB = np.full((n, 3, 3), np.nan), np.full((n, 3, 3), np.nan)
+    for i in np.nonzero(okB)[0]:
+        g = grain.grain(ubisB[i])
+        wantsB[i] = g.eps_sample_matrix(cells[phase[i]], 0.5)
+        wantcB[i] = g.eps_grain_matrix(cells[phase[i]], 0.5)
     for order in ("sample-first", "crystal-first"):
-        tm = tmap.TensorMap(maps={"UBI": ubimap.copy(), "phase_ids": phase_ids.copy()}, phases={0: uc})
+        tm = tmap.TensorMap(maps={"UBI": ubimapB.copy(), "phase_ids": phase_ids.copy()}, phases={0: ucs[0], 1: ucs[1]})
         with contextlib.redirect_stdout(io.StringIO()):
             if order == "sample-first":
                 a = tm.eps_sample
@@ -185,24 +278,32 @@ def one_map(run, seed, idx, mods, tmap):
         run.count("tensormap_orders")
         a, b, U = a.reshape(n, 3, 3), b.reshape(n, 3, 3), U.reshape(n, 3, 3)
         first, second = (a, b) if order == "sample-first" else (b, a)
-        wfirst = wants if order == "sample-first" else wantc
-        if np.abs(first[ok] - wfirst[ok]).max(initial=0) > 1e-10:
+        wfirst = wantsB if order == "sample-first" else wantcB
+        cfirst = Ecl_s if order == "sample-first" else Ecl_c
+        if np.abs(first[okB] - wfirst[okB]).max(initial=0) > 1e-10:
             V("TensorMap:%s:direct" % order, "directly computed strain map differs from the per-grain value")
+        if np.abs(first[okB] - cfirst[okB]).max(initial=0) > 1e-10:
+            V("TensorMap:%s:direct:closed-form" % order, "directly computed strain map differs from the Biot strain of the "
+              "known stretch of the voxel's own phase by %.3g" % np.abs(first[okB] - cfirst[okB]).max(initial=0))
         # the second one is rotated from the cache with the map's own U: law E_s = U E_c U^T
-        for i in np.nonzero(ok)[0]:
+        for i in np.nonzero(okB)[0]:
             law = np.abs(a[i] - U[i] @ b[i] @ U[i].T).max()
             if law > 1e-10:
                 V("TensorMap:%s:rotation-law" % order,
                   "eps_sample != U.eps_crystal.U^T for the cached-rotation path (err %.3g, strain %.3g)" % (law, mag),
                   voxel=int(i))
                 break
-        # and it must agree with the per-grain value to second order in strain
-        wsecond = wantc if order == "sample-first" else wants
-        e2 = mag * 3
-        if np.abs(second[ok] - wsecond[ok]).max(initial=0) > 4 * e2 ** 2 + 1e-10:
-            V("TensorMap:%s:rotated-vs-grain" % order,
-              "rotated strain map differs from the per-grain value by %.3g (strain %.3g): more than second order"
-              % (np.abs(second[ok] - wsecond[ok]).max(), mag))
+        # and it must agree with the per-grain value within the derived second-order bound (see above)
+        wsecond = wantcB if order == "sample-first" else wantsB
+        for i in np.nonzero(okB)[0]:
+            run.count("rotated_vs_grain_voxels")
+            dv = np.abs(second[i] - wsecond[i]).max()
+            run.setmax("rotated_vs_grain_worst_fraction_of_bound", round(float(dv / bound[i]), 4))
+            if not dv <= bound[i]:
+                V("TensorMap:%s:rotated-vs-grain" % order,
+                  "rotated strain map differs from the per-grain value by %.3g > 2|R^T.U-I||E| = %.3g (strain %.3g)"
+                  % (dv, bound[i], mag), voxel=int(i))
+                break
 
 
 def check(run, replay=None):
@@ -217,7 +318,7 @@ def check(run, replay=None):
             one_case(run, replay["seed"], cs["index"], mods)
         run.nontrivial.update(["replay", "replay2"])
         return
-    ng, nm = (210, 24) if run.tier == "quick" else (10000, 600)
+    ng, nm = (210, 84) if run.tier == "quick" else (10000, 2100)
     for i in range(ng):
         one_case(run, run.seed, i, mods)
     for i in range(nm):
@@ -225,3 +326,13 @@ def check(run, replay=None):
     run.require_counter("tensors_checked", 1000)
     run.require_counter("map_voxels_checked", 50)
     run.require_counter("tensormap_orders", 10)
+    run.require_counter("ref_is_grain_large_stretch_cases", 5)
+    run.require_counter("dgt_object_inputs", 100)
+    run.require_counter("e6_round_trips", 1000)
+    run.require_counter("map_voxels_own_reference_cell", 50)
+    run.require_counter("tensormap_voxels_phase0", 10)
+    run.require_counter("tensormap_voxels_phase1", 10)
+    run.require_counter("tensormap_voxels_nophase", 3)
+    run.require_counter("rotated_vs_grain_voxels", 50)
+    run.require_counter("rotation_kernel_voxels", 50)
+    run.require_counter("map_mag_0.1", 1)
